@@ -16,7 +16,8 @@ RULE = ("T.decode(T.encode(v)) == v for: all values of every exported 1/2-byte t
         "special-float/random values of wider types, strings of length 0..300 and at prefix limits, and generated "
         "Array(int|type|None)/Struct/StructTag/FixedSizeString/n_bytes/IPAddress/Revision compositions to depth 3, plus "
         "ModuleIdentityObject, DATE_AND_TIME, STRINGN, STRINGI; each decode runs on a stream with trailing junk and must stop "
-        "exactly at the end of the encoding; struct dict-vs-sequence encodings compared; every decoded list / dict is then scrambled in place "
+        "exactly at the end of the encoding, and the same bytes handed to decode() as a bytes buffer must give the same value (STRINGI with ISO 639-2 "
+        "languages and character-set numbers inside and outside the library's tables); struct dict-vs-sequence encodings compared; every decoded list / dict is then scrambled in place "
         "and the same bytes are decoded again (the result belongs to the caller: no shared or cached objects). distinct = (type shape, value bucket)")
 ASSUMPTIONS = [
     "domains: ints in range, floats at stored precision (NaN==NaN), strings of characters representable in one code unit of the declared width, bit strings of exact length",
@@ -76,6 +77,15 @@ def roundtrip(res, case, v, bucket=None):
         return enc
     if tell != expect_tell:
         res.violation(f"consumed:{kkey(case)}", f"{case.label}: decode consumed {tell} bytes of a {expect_tell}-byte encoding (+{len(data) - expect_tell} junk)",
+                      {"type": case.label, "value": v, "encoded": enc})
+    # decode() takes a bytes buffer as well as a stream (the documented way to decode a value one holds): same value
+    try:
+        got_b = case.lib.decode(bytes(data))
+    except Exception as e:  # noqa
+        got_b = e
+    res.ev()
+    if isinstance(got_b, Exception) or not rc.values_equal(desc, want, got_b):
+        res.violation(f"decode-from-bytes-differs:{kkey(case)}", f"{case.label}.decode(<bytes>) = {got_b!r:.160}; the same bytes decoded from a stream give {got!r:.120}",
                       {"type": case.label, "value": v, "encoded": enc})
     # The decoded value belongs to the caller: whatever the caller does to it (read-modify-write of a bit list, clearing a
     # dict) may not change what a later decode of the same bytes returns - "decoding the encoding returns the value" every time.
@@ -199,6 +209,10 @@ def run(ctx):
                 want = ([i[0] for i in items], [i[2] for i in items], [i[3] for i in items])
                 if tuple(list(x) for x in got) != tuple(want) or st.tell() != len(enc):
                     res.violation("roundtrip:STRINGI", f"STRINGI {items!r:.200} -> {got!r:.200} tell={st.tell()}/{len(enc)}", None)
+                got_b = STRINGI.decode(enc)    # from a bytes buffer, as a caller holding reply data would
+                res.ev()
+                if tuple(list(x) for x in got_b) != tuple(want):
+                    res.violation("decode-from-bytes-differs:STRINGI", f"STRINGI.decode(<bytes>) of {items!r:.160} -> {got_b!r:.200}", None)
             except Exception as e:  # noqa
                 res.violation("roundtrip:STRINGI", f"STRINGI {items!r:.200} raised {e!r:.200}", None)
         vend_names = sorted(k for k in VENDORS if isinstance(k, str))
